@@ -93,9 +93,14 @@ def one_trace(tid, rng, base_kind, thorough):
                          for q in range(m)], dtype=numpy.float64)
         Pfit = P if base_kind == "lookup" else P[:, 1:]
         table = Ids()
-        proba = model.predict_proba(Pfit)
-        pred = model.predict(Pfit)
-        dp = model.decision_path(Pfit).toarray()
+        try:
+            proba = model.predict_proba(Pfit)
+            pred = model.predict(Pfit)
+            dp = model.decision_path(Pfit).toarray()
+        except Exception as e:
+            ev.append(dict(a="raised", err=repr(e)[:100]))
+            t["ev"] = ev
+            return t
         per_node = {}
         for idx, nd in nodes.items():
             per_node[idx] = nd.estimator.predict_proba(Pfit)
